@@ -201,6 +201,45 @@ def case_builtin(case):
     return {"v": v[:6], "nt": n, "n": n}
 
 
+def _hist_field(k, shape):
+    rng = np.random.default_rng(100 + k)
+    return np.round(rng.random(shape) * 64) / 64
+
+
+HIST_OPS = [
+    {"kind": "rescale", "shape": [4, 5], "f": 0, "g": 1},
+    {"kind": "rescale", "shape": [4, 5], "f": 2, "g": 2},
+    {"kind": "rescale", "shape": [3, 3], "f": 0, "g": 3, "gint": True},
+    {"kind": "contour", "shape": [4, 5], "f": 0, "p": 0.5},
+    {"kind": "contour", "shape": [4, 5], "f": 2, "p": 0.8125},
+    {"kind": "contour", "shape": [3, 3], "f": 1, "p": 0.5, "desc": True},
+    {"kind": "builtin", "shape": [4, 5], "f": 1},
+]
+
+
+def hist_op(i):
+    import bldfm.utils as bu
+    from bldfm.plotting import extract_percentile_contour
+
+    op = HIST_OPS[i]
+    shape = tuple(op["shape"])
+    f = _hist_field(op["f"], shape)
+    y, x = np.arange(shape[0]) * 4.0, np.arange(shape[1]) * 2.0
+    if op["kind"] == "rescale":
+        g = _hist_field(op["g"], shape)
+        if op.get("gint"):
+            g = (g * 64).astype(np.int64)
+        return np.asarray(bu.get_source_area(f, g))
+    if op["kind"] == "contour":
+        if op.get("desc"):
+            y = y[::-1].copy()
+        Y, X = np.meshgrid(y, x, indexing="ij")
+        return extract_percentile_contour(f, (X, Y, np.zeros(shape)), pct=op["p"])
+    Y, X = np.meshgrid(y, x, indexing="ij")
+    return tuple(np.asarray(bu.get_source_area(f, g)) for g in (bu.source_area_contribution(f), bu.source_area_circular(X, Y, (2.0, 4.0)), bu.source_area_upwind(X, Y, (2.0, 4.0), (1.0, 2.0)),
+                                                                   bu.source_area_crosswind(X, Y, (2.0, 4.0), (1.0, 2.0)), bu.source_area_sector(X, Y, (2.0, 4.0), (1.0, 2.0))))
+
+
 def run(ctx):
     cases = []
     nf = 4**4
@@ -222,3 +261,6 @@ def run(ctx):
         "percentile: all non-zero f in {0,1,2,4}^(2x2) and {0,1,3}^(2x3) (thorough: + {0,1,2}^(3x3)) x p in {k/16} U exact cumulative fractions x 1-D/2-D coordinates, + scalings and 3-D input; "
         "every call is a distinct non-trivial evaluation; evaluations counts library calls"
     )
+    from vf import histories
+
+    histories.run(ctx, __name__, 2 if ctx.tier == "quick" else 3)
